@@ -58,7 +58,7 @@ def gen_cases(ctx):
                "filter": None, "policy": "random_available"}
 
 
-def make_classes():
+def make_classes(sized=False):
     from job_shop_lib.dispatching import DispatcherObserver
 
     class Recorder(DispatcherObserver):
@@ -85,6 +85,18 @@ def make_classes():
     class SingleRecorder(Recorder):
         _is_singleton = True
 
+    if sized:
+        # record-like observers are often sized containers: empty (falsy) right after their
+        # creation and after a reset
+        def _len(self):
+            n = 0
+            for e in reversed(self.log):
+                if e[0] == self.label:
+                    if e[1] == "reset":
+                        break
+                    n += 1
+            return n
+        Recorder.__len__ = _len
     return Recorder, SingleRecorder
 
 
@@ -170,7 +182,10 @@ def run_case(ctx, case):
     from job_shop_lib.exceptions import ValidationError
 
     rng = random.Random(case["seed"])
-    Recorder, SingleRecorder = make_classes()
+    sized = case["seed"] % 5 == 2
+    Recorder, SingleRecorder = make_classes(sized)
+    if sized:
+        ctx.count("histories_with_sized_falsy_when_empty_observers")
     run = Run(case["instance"], case.get("filter"))
     d, r = run.d, run.r
     log = []
@@ -201,6 +216,15 @@ def run_case(ctx, case):
 
     for _ in range(rng.randint(1, 3)):
         add_recorder()
+    if case["seed"] % 11 == 6:
+        # an observer given priority by hand: built unsubscribed and put at the head of the public
+        # `subscribers` list (the list is the subscription order)
+        lb = new_label()
+        ob = Recorder(d, subscribe=False, label=lb, log=log, probe=probe)
+        d.subscribers.insert(0, ob)
+        subs.insert(0, ob); labels[id(ob)] = lb
+        script.append(("inserted_at_head", lb))
+        ctx.count("observers_inserted_at_the_head_of_the_subscribers_list")
     # observers built with subscribe=False are not subscribers and receive nothing
     from job_shop_lib.dispatching.feature_observers import (FeatureObserver, CompositeFeatureObserver,
                                                            IsScheduledObserver)
@@ -238,7 +262,18 @@ def run_case(ctx, case):
         ctx.count("composite_before_child")
     hist = None
     if rng.random() < 0.7:
-        hist = HistoryObserver(d); subs.append(hist); labels[id(hist)] = "HIST"
+        if case["seed"] % 3 == 1:
+            # the user's own flavour of the history observer (still a HistoryObserver, still a
+            # singleton); with `sized` it also is a sized container
+            class OwnHistory(HistoryObserver):
+                pass
+            if sized:
+                OwnHistory.__len__ = lambda self: len(self.history)
+            hist = OwnHistory(d)
+            ctx.count("history_observer_is_a_user_subclass")
+        else:
+            hist = HistoryObserver(d)
+        subs.append(hist); labels[id(hist)] = "HIST"
     model_hist = []   # dispatches since last reset while hist subscribed... (hist subscribed from start)
     parked = None     # (history observer that was unsubscribed, what it had recorded by then)
     hist_resubscribed = False
